@@ -203,6 +203,9 @@ func init() {
 				emit(c, ";", "O", "0", ";", "O", "0", ";", "C", "0", ";", "C", "0", ";", "C", "0")
 				emit(c, ";", "O", "0", ";", "D", "0", ";", "D", "0", ";", "O", "0", ";", "D", "0")
 				emit(c, ";", "C", "1", ";", "F", "1", ";", "O", "1", ";", "C", "1", ";", "O", "1", ";", "C", "1")
+				// a failed and a cached OpenDB re-arm Drop (two OpenDB calls, two drops of one store)
+				emit(c, ";", "O", "0", ";", "C", "0", ";", "D", "0", ";", "F", "0", ";", "D", "0", ";", "D", "0")
+				emit(c, ";", "O", "0", ";", "D", "0", ";", "O", "0", ";", "D", "0", ";", "D", "0")
 			}
 			// exhaustive: all sequences of length <= depth over {O,C,D} x 2 names (+F on one name)
 			depth := 4
@@ -225,8 +228,8 @@ func init() {
 			}
 			for d := 1; d <= depth; d++ {
 				rec([]string{"W"}, d)
+				rec([]string{"A"}, d)
 			}
-			rec([]string{"A"}, 3)
 			for i := 0; i < n; i++ {
 				c := "W"
 				if r.Intn(2) == 0 {
